@@ -27,11 +27,14 @@ type ClientCfg struct {
 	Device  bool   `json:"device"`
 	Refresh bool   `json:"refresh,omitempty"`
 	JWTAT   bool   `json:"jwt_at,omitempty"`
+	// PlainSecret: the client secret consists of URL-unreserved characters only (the default secret contains '/' and '+',
+	// which only survive HTTP Basic authentication when the sender form-encodes them, RFC 6749 section 2.3.1)
+	PlainSecret bool `json:"plain_secret,omitempty"`
 }
 
 // Op is one step of a history; operands are symbolic (indices resolved against the live state in run).
 type Op struct {
-	Kind    string   `json:"kind"`              // authorize | approve | deny | expire | poll
+	Kind    string   `json:"kind"`              // authorize | approve | deny | expire | poll | rpflow
 	Client  int      `json:"client,omitempty"`  // authorize: initiating client; poll: polling client
 	Pres    string   `json:"pres,omitempty"`    // right | id_only | wrong_secret | cross | none
 	Other   int      `json:"other,omitempty"`   // cross: client whose id is put into the form body
@@ -42,6 +45,22 @@ type Op struct {
 	Timeout bool     `json:"timeout,omitempty"` // poll: storage time-out on GetDeviceAuthorizatonState
 	Host    int      `json:"host,omitempty"`
 	Fwd     int      `json:"fwd,omitempty"`
+	// rpflow: a whole device flow driven through the library's own client helpers (see rpflow_test.go)
+	RPAuth string `json:"rp_auth,omitempty"` // "" = as registered (secret / signer from key+kid / nothing) | keyfile (signer from key file data) | signer+secret
+	AuthFn string `json:"auth_fn,omitempty"` // "" | header (httphelper.RequestAuthorization) | form (httphelper.FormAuthorization): extra auth params
+	Via    string `json:"via,omitempty"`     // "" = rp.DeviceAuthorization + rp.DeviceAccessToken | client = client.CallDeviceAuthorizationEndpoint + client.PollDeviceAccessTokenEndpoint
+	Decide string `json:"decide,omitempty"`  // approve | deny | expire | cancel: what happens to the code while the helper polls
+	After  int    `json:"after,omitempty"`   // number of polls that are answered before the decision is applied
+	PollUs int    `json:"poll_us,omitempty"` // interval handed to the polling helper, microseconds
+}
+
+// RTSub is one provider of a real-time case (TestExpiry): all providers of a case share one wait.
+type RTSub struct {
+	Router    string `json:"router"`
+	LifetimeS int    `json:"lifetime_s"`
+	PollS     int    `json:"poll_s"`
+	Client    string `json:"client"`           // kind of the initiating client
+	Decide    string `json:"decide,omitempty"` // "" (pending) | approve | deny, applied before the wait
 }
 
 // UCCase drives op.NewUserCode / op.NewDeviceCode directly.
@@ -50,8 +69,8 @@ type UCCase struct {
 }
 
 type Case struct {
-	ErrStyle string `json:"err_style,omitempty"` // how the storage words its own refusals (vkit.Store.refuse)
-	Kind       string         `json:"kind"` // history | usercode
+	ErrStyle   string         `json:"err_style,omitempty"` // how the storage words its own refusals (vkit.Store.refuse)
+	Kind       string         `json:"kind"`                // history | usercode | realtime
 	Router     string         `json:"router,omitempty"`
 	IssuerMode string         `json:"issuer_mode,omitempty"`
 	Issuer     string         `json:"issuer,omitempty"`
@@ -61,6 +80,8 @@ type Case struct {
 	Clients    []ClientCfg    `json:"clients,omitempty"`
 	Ops        []Op           `json:"ops,omitempty"`
 	UC         *UCCase        `json:"uc,omitempty"`
+	RT         []RTSub        `json:"rt,omitempty"`       // realtime
+	ExtraMs    int            `json:"extra_ms,omitempty"` // realtime: wait = longest lifetime + 2 s guard + ExtraMs
 }
 
 // ---- generators ------------------------------------------------------------------
@@ -167,13 +188,14 @@ func genCase0(t *rapid.T) Case {
 		}
 		cc.Refresh = rapid.Bool().Draw(t, fmt.Sprintf("refresh%d", i))
 		cc.JWTAT = rapid.Bool().Draw(t, fmt.Sprintf("jwtat%d", i))
+		cc.PlainSecret = rapid.IntRange(0, 3).Draw(t, fmt.Sprintf("plainsecret%d", i)) > 0
 		c.Clients = append(c.Clients, cc)
 	}
 
 	n := rapid.IntRange(2, vkit.Scale(14, 24)).Draw(t, "nops")
 	for i := 0; i < n; i++ {
 		var o Op
-		kind := rapid.SampledFrom([]string{"authorize", "authorize", "authorize", "approve", "approve", "approve", "deny", "deny", "expire", "expire",
+		kind := rapid.SampledFrom([]string{"authorize", "authorize", "authorize", "approve", "approve", "approve", "deny", "deny", "expire", "expire", "rpflow", "rpflow", "rpflow",
 			"poll", "poll", "poll", "poll", "poll", "poll", "poll", "poll", "poll", "poll"}).Draw(t, "op")
 		if i == 0 && rapid.IntRange(0, 4).Draw(t, "first") > 0 {
 			kind = "authorize"
@@ -187,6 +209,8 @@ func genCase0(t *rapid.T) Case {
 			o.Pres = rapid.SampledFrom([]string{"right", "right", "right", "right", "id_only", "cross", "cross"}).Draw(t, "pres")
 			o.Other = rapid.IntRange(0, 2).Draw(t, "other")
 			o.Scopes = genScopes(t)
+		case "rpflow":
+			genRPFlow(t, &o)
 		case "approve":
 			o.Code = rapid.SampledFrom(codeIdx).Draw(t, "code")
 			o.User = rapid.IntRange(0, 2).Draw(t, "user")
@@ -211,6 +235,19 @@ func genCase0(t *rapid.T) Case {
 		c.Ops = append(c.Ops, o)
 	}
 	return c
+}
+
+// genRPFlow: one device flow driven end to end through the library's client helpers.
+func genRPFlow(t *rapid.T, o *Op) {
+	o.Client = rapid.SampledFrom([]int{0, 0, 0, 1, 1, 2}).Draw(t, "client")
+	o.Scopes = genScopes(t)
+	o.RPAuth = rapid.SampledFrom([]string{"", "", "", "keyfile", "signer+secret"}).Draw(t, "rpauth")
+	o.AuthFn = rapid.SampledFrom([]string{"", "", "header", "form"}).Draw(t, "authfn")
+	o.Via = rapid.SampledFrom([]string{"", "", "", "client"}).Draw(t, "via")
+	o.Decide = rapid.SampledFrom([]string{"approve", "approve", "approve", "deny", "expire", "cancel"}).Draw(t, "decide")
+	o.After = rapid.SampledFrom([]int{0, 0, 1, 2}).Draw(t, "after")
+	o.User = rapid.IntRange(0, 2).Draw(t, "user")
+	o.PollUs = rapid.SampledFrom([]int{20, 100, 500, 1000}).Draw(t, "pollus")
 }
 
 func genUCCase(t *rapid.T) Case {
@@ -300,9 +337,20 @@ type codeM struct {
 	ownerSoundOnly bool
 }
 
+// sameSet compares scope lists as sets; the empty string is not a scope (an empty scope parameter, which the library's
+// client helpers send for "no scopes", is decoded by the provider into one empty entry).
 func sameSet(a, b []string) bool {
-	x := append([]string{}, a...)
-	y := append([]string{}, b...)
+	x, y := []string{}, []string{}
+	for _, s := range a {
+		if s != "" {
+			x = append(x, s)
+		}
+	}
+	for _, s := range b {
+		if s != "" {
+			y = append(y, s)
+		}
+	}
 	sort.Strings(x)
 	sort.Strings(y)
 	if len(x) != len(y) {
@@ -327,11 +375,15 @@ func clientSpec(i int, cc ClientCfg) *vkit.ClientSpec {
 	if cc.Refresh {
 		s.GrantTypes = append(s.GrantTypes, vkit.GRefr)
 	}
+	secret := fmt.Sprintf("s3cr3t/%d+x", i)
+	if cc.PlainSecret {
+		secret = fmt.Sprintf("s3cr3t-%d_x", i)
+	}
 	switch cc.Kind {
 	case "conf_basic":
-		s.AppType, s.AuthMethod, s.Secret = "web", "client_secret_basic", fmt.Sprintf("s3cr3t/%d+x", i)
+		s.AppType, s.AuthMethod, s.Secret = "web", "client_secret_basic", secret
 	case "conf_post":
-		s.AppType, s.AuthMethod, s.Secret = "web", "client_secret_post", fmt.Sprintf("s3cr3t/%d+x", i)
+		s.AppType, s.AuthMethod, s.Secret = "web", "client_secret_post", secret
 	case "conf_jwt":
 		s.AppType, s.AuthMethod, s.Keys = "web", "private_key_jwt", map[string]string{fmt.Sprintf("k%d", i): "rsa2"}
 	case "pub_ua":
@@ -339,7 +391,7 @@ func clientSpec(i int, cc ClientCfg) *vkit.ClientSpec {
 	case "odd_web_none":
 		s.AppType, s.AuthMethod = "web", "none"
 	case "odd_native_basic":
-		s.AppType, s.AuthMethod, s.Secret = "native", "client_secret_basic", fmt.Sprintf("s3cr3t/%d+x", i)
+		s.AppType, s.AuthMethod, s.Secret = "native", "client_secret_basic", secret
 	default: // pub_native
 		s.AppType, s.AuthMethod = "native", "none"
 	}
@@ -454,15 +506,19 @@ func run(c Case) (res *vkit.Result) {
 		runUserCode(c, res)
 		return res
 	}
+	if c.Kind == "realtime" {
+		runRealtime(c, res)
+		return res
+	}
 	runHistory(c, res)
 	return res
 }
 
-func runHistory(c Case, res *vkit.Result) {
+func newWorld(c Case, res *vkit.Result) *world {
 	if len(c.Clients) != 3 || c.Device.CharSet == "" || c.Device.CharAmount < 1 {
 		res.Grey = true
 		res.Label("malformed-case")
-		return
+		return nil
 	}
 	w := &world{c: c, res: res, seenDev: map[string]bool{}, classes: map[string]bool{}}
 	for i, cc := range c.Clients {
@@ -475,9 +531,17 @@ func runHistory(c Case, res *vkit.Result) {
 	sut, err := vkit.Build(spec, w.st)
 	if err != nil {
 		res.Fail("C16:provider-construction", "NewProvider refused a valid configuration %+v: %v", spec, err)
-		return
+		return nil
 	}
 	w.sut, w.ag = sut, vkit.NewAgent(sut)
+	return w
+}
+
+func runHistory(c Case, res *vkit.Result) {
+	w := newWorld(c, res)
+	if w == nil {
+		return
+	}
 
 	for i, o := range c.Ops {
 		switch o.Kind {
@@ -487,6 +551,8 @@ func runHistory(c Case, res *vkit.Result) {
 			w.decide(i, o)
 		case "poll":
 			w.poll(i, o)
+		case "rpflow":
+			w.rpFlow(i, o)
 		}
 	}
 
@@ -521,9 +587,7 @@ func dashClass(d vkit.DeviceCfg) string {
 // ---- device authorization ------------------------------------------------------------
 
 func (w *world) authorize(i int, o Op) {
-	res, c := w.res, w.c
 	j := mod(o.Client, 3)
-	cfg := c.Clients[j]
 	issuer := w.issuerFor(o)
 	pres := o.Pres
 	if pres != "id_only" && pres != "cross" {
@@ -534,9 +598,17 @@ func (w *world) authorize(i int, o Op) {
 	t0 := time.Now()
 	r := w.ag.DeviceAuthorize(strings.Join(o.Scopes, " "), cr)
 	t1 := time.Now()
+	w.judgeAuthz(i, o, j, pres, proven, issuer, r, t0, t1)
+}
+
+// judgeAuthz judges one device authorization response (request sent by the harness' agent or by the library's own client
+// helper) and, when a code was issued, enters it into the model. proven: the presentation proves the client's identity.
+func (w *world) judgeAuthz(i int, o Op, j int, pres string, proven bool, issuer string, r *vkit.Resp, t0, t1 time.Time) *codeM {
+	res, c := w.res, w.c
+	cfg := c.Clients[j]
 	if r.Panic != nil {
 		res.Fail("C16:panic@"+r.PanicFrame(), "op %d device_authorize: %s", i, r.Describe())
-		return
+		return nil
 	}
 	// a refusal is excused when the freshly drawn user code really collided with a live one (tiny code spaces)
 	collisionPossible := false
@@ -553,7 +625,7 @@ func (w *world) authorize(i int, o Op) {
 			}
 		}
 	}
-	mustAccept := cfg.Device && !odd(cfg.Kind) && (pres == "right" || pres == "cross") && proven && !collisionPossible
+	mustAccept := cfg.Device && !odd(cfg.Kind) && (pres == "right" || pres == "cross" || pres == "rp") && proven && !collisionPossible
 	class := "authz:" + pres
 	switch {
 	case !cfg.Device:
@@ -562,6 +634,10 @@ func (w *world) authorize(i int, o Op) {
 		class += ":odd-client"
 	case collisionPossible:
 		class += ":user-code-collision"
+	case strings.HasPrefix(pres, "rp"):
+		if !mustAccept {
+			class += ":presentation-outside-domain"
+		}
 	case !mustAccept:
 		class += ":unauthenticated-confidential"
 	}
@@ -570,14 +646,14 @@ func (w *world) authorize(i int, o Op) {
 		if mustAccept {
 			res.Fail("C16:authz:refused", "op %d: device authorization by %s (%s, presentation %s, device grant registered) on %s was refused: %s", i, w.specs[j].ID, cfg.Kind, pres, c.Router, r.Describe())
 		}
-		return
+		return nil
 	}
 	res.Label(class + ":issued")
 	w.classes[class] = true
 	body := r.JSON()
 	if body == nil {
 		res.Fail("C16:authz:not-json", "op %d: device authorization answered %d with a body that is not a JSON object: %s", i, r.Status, r.Describe())
-		return
+		return nil
 	}
 	dev, _ := body["device_code"].(string)
 	uc, _ := body["user_code"].(string)
@@ -617,14 +693,30 @@ func (w *world) authorize(i int, o Op) {
 	m := &codeM{dev: dev, user: uc, owner: j, scopes: o.Scopes, issuedBefore: t0, issuedAfter: t1, withoutGrant: !cfg.Device,
 		ownerSoundOnly: !cfg.Device || odd(cfg.Kind)}
 	// what the storage was told must be what the client was told (the user approves by user code)
-	if e := w.st.DeviceByUserCode(uc); e == nil || e.DeviceCode != dev {
+	e := w.st.DeviceByUserCode(uc)
+	if e == nil || e.DeviceCode != dev {
 		res.Fail("C16:authz:stored-pair-differs", "op %d: response pairs user_code %q with device_code %q, the storage was given another pair (%+v)", i, uc, dev, e)
-		return
-	} else if e.State.ClientID != w.specs[j].ID {
+		return nil
+	}
+	if e.State.ClientID != w.specs[j].ID {
 		res.Fail("C16:authz:stored-for-other-client", "op %d: flow started by %s (presentation %s) was stored for client %q", i, w.specs[j].ID, pres, e.State.ClientID)
 		// keep going with the client that really started it: polls decide whether it matters
 	}
+	// the scopes the user is asked to approve (and the tokens will carry) are the requested ones
+	if !sameSet(e.State.Scopes, o.Scopes) {
+		res.Fail("C16:authz:stored-scopes", "op %d: flow started by %s (presentation %s) with scopes %v, the storage was handed scopes %v", i, w.specs[j].ID, pres, o.Scopes, e.State.Scopes)
+	}
+	// the expiry the storage is told is the lifetime the client is told (expires_in = configured lifetime): the library
+	// read the clock between t0 and t1, so expires lies in [t0+lifetime, t1+lifetime]; 2 s guard on both sides
+	life := time.Duration(c.Device.LifetimeS) * time.Second
+	if exp := e.State.Expires; exp.Before(t0.Add(life-2*time.Second)) || exp.After(t1.Add(life+2*time.Second)) {
+		res.Fail("C16:authz:stored-expiry", "op %d: configured lifetime %d s (expires_in=%v) but the storage was told the code expires %.1f s after the request began / %.1f s after it ended (poll interval %d s)",
+			i, c.Device.LifetimeS, body["expires_in"], exp.Sub(t0).Seconds(), exp.Sub(t1).Seconds(), c.Device.PollS)
+	} else {
+		res.Label("authz:stored-expiry-checked")
+	}
 	w.codes = append(w.codes, m)
+	return m
 }
 
 func (w *world) checkURIs(i int, body map[string]any, issuer, uc string) {
@@ -695,7 +787,6 @@ func (w *world) decide(i int, o Op) {
 // ---- polling ---------------------------------------------------------------------------
 
 func (w *world) poll(i int, o Op) {
-	res, c := w.res, w.c
 	var m *codeM
 	code := ""
 	unknown := o.Unknown
@@ -753,7 +844,6 @@ func (w *world) poll(i int, o Op) {
 	}
 	issuer := w.issuerFor(o)
 	cr, ident, proven, pres := w.cred(j, o.Pres, other, issuer)
-	cfg := c.Clients[j]
 
 	form := url.Values{"grant_type": {vkit.GDevice}, "device_code": {code}}
 	w.aim(o)
@@ -768,6 +858,34 @@ func (w *world) poll(i int, o Op) {
 	r := w.ag.Token(form, cr)
 	t1 := time.Now()
 	w.st.SetFaults()
+	w.judgePoll(pollObs{i: i, m: m, code: code, unknown: unknown, j: j, ident: ident, proven: proven, pres: pres, bodyID: cr.BodyID,
+		timeout: o.Timeout, before: before, r: r, t0: t0, t1: t1})
+}
+
+// pollObs is one observed device-code token request: who sent it (as which client, with which presentation), for which
+// code of the model (nil: never issued), and what came back.
+type pollObs struct {
+	i            int
+	m            *codeM
+	code         string
+	unknown      string
+	j, ident     int
+	proven       bool
+	pres, bodyID string
+	timeout      bool
+	before       map[string]bool // ids of the access tokens the storage held before the request
+	r            *vkit.Resp
+	t0, t1       time.Time
+}
+
+// judgePoll is the per-request oracle of a device-code token request (sent by the harness' agent or by the library's
+// polling helper).
+func (w *world) judgePoll(p pollObs) {
+	res, c := w.res, w.c
+	i, m, code, unknown, j, ident, proven, pres, before, r, t0, t1 := p.i, p.m, p.code, p.unknown, p.j, p.ident, p.proven, p.pres, p.before, p.r, p.t0, p.t1
+	o := struct{ Timeout bool }{p.timeout}
+	cr := struct{ BodyID string }{p.bodyID}
+	cfg := c.Clients[j]
 	if r.Panic != nil {
 		res.Fail("C16:panic@"+r.PanicFrame(), "op %d poll: %s", i, r.Describe())
 		return
@@ -850,6 +968,10 @@ func (w *world) poll(i int, o Op) {
 		expect = "refuse:foreign-client:" + pres
 	case m.ownerSoundOnly || odd(cfg.Kind) || !cfg.Device:
 		expect, grey = "grey:owner-outside-domain", true
+	case pres == "rp+secret" || pres == "rp-rawsecret":
+		// a relying party that sends two authentication methods at once, or a secret with reserved characters unencoded
+		// in the Basic header: the statement does not say what the provider makes of those; soundness only
+		expect, grey = "grey:rp-presentation-outside-domain", true
 	case !proven:
 		expect = "refuse:unauthenticated-confidential"
 	case pres == "cross":
@@ -891,6 +1013,9 @@ func (w *world) poll(i int, o Op) {
 		got = "tokens"
 	}
 	res.Label("poll:"+expect, "got:"+got)
+	if strings.HasPrefix(pres, "rp") {
+		res.Label("rp-poll:" + expect)
+	}
 	if rel == "owner" && !grey {
 		res.Label("owner-poll-in-state:" + state)
 	}
@@ -1062,19 +1187,23 @@ func scopeClaim(v any) []string {
 
 const ruleHistory = "history cases (TestRapid) = router (provider|legacy) x issuer strategy (static|host|forwarded, secure/insecure, with/without path; Host and Forwarded vary per request) x " +
 	"device config (lifetime 30-3600 s or 0-3 s, poll interval 0-30 s, user form path, user-code alphabet {base20, digits, non-ASCII, single rune, generated letters/digits} x length 1-16 x dash interval 0..length+1) x " +
-	"3 clients (confidential basic/post/private_key_jwt, public native/user_agent, two odd registrations; with/without device grant, refresh grant, JWT access tokens) x " +
+	"3 clients (confidential basic/post/private_key_jwt, public native/user_agent, two odd registrations; with/without device grant, refresh grant, JWT access tokens; secret with or without URL-reserved characters) x " +
 	"2-14 (thorough 24) ops: device_authorize(client, presentation right|id_only|cross, scopes), approve(code#, user#) via the user code, deny, expire, " +
-	"poll(code# or never-issued code, as client#, presentation right|id_only|wrong_secret|cross(body client_id of another client)|none, optional storage time-out); " +
-	"oracle = per-device-code model {pending, approved(user), denied, expired(forced or by clock with 2 s guard), redeemed}; alphabets are letters/digits (no '-' or URL-reserved characters); " +
+	"poll(code# or never-issued code, as client#, presentation right|id_only|wrong_secret|cross(body client_id of another client)|none, optional storage time-out), " +
+	"rpflow(client, scopes, relying party built with rp.NewRelyingPartyOIDC as the client is registered: secret | JWT-profile signer from key+kid | signer from key file data | signer+secret | nothing; authFn none|header|form; " +
+	"via rp.DeviceAuthorization+rp.DeviceAccessToken | client.CallDeviceAuthorizationEndpoint+client.PollDeviceAccessTokenEndpoint; the user approves|denies|the code expires|the device cancels right before the 0th..2nd poll of the helper is served; " +
+	"in-process transport, every request of the helpers judged by the same per-request oracles, helper result = last provider answer); " +
+	"oracle = per-device-code model {pending, approved(user), denied, expired(forced or by clock with 2 s guard), redeemed}; at device authorization the storage is handed the requested scopes, the authenticated client and " +
+	"an expiry = request time + configured lifetime (t0/t1 bracket, 2 s guard); alphabets are letters/digits (no '-' or URL-reserved characters); " +
 	"non-trivial = at least one issued code and one asserted poll that is not owner/right/pending; distinct = (router, issuer mode, alphabet class, dash class, set of (state, relation, presentation, timeout, expectation) classes)"
 
 const ruleUC = "user-code cases (TestUserCode) = same alphabet classes x length 1-16 x dash interval 0..length+1, op.NewUserCode called ceil(64/length)+1 times: " +
 	"layout per config, codes not constant (>= 2 symbols) and pairwise distinct when the code space has >= 48 bit; op.NewDeviceCode(n in 16..64) decodes to n bytes and never repeats; " +
 	"non-trivial = dash interval inside the code or non-ASCII alphabet; distinct = (alphabet, length, dash interval)"
 
-var prop = vkit.Prop[Case]{ID: "C16", Rule: ruleHistory + " || " + ruleUC, Gen: genCase, Run: run}
+var prop = vkit.Prop[Case]{ID: "C16", Rule: ruleHistory + " || " + ruleUC + " || " + ruleRT, Gen: genCase, Run: run}
 
-var propUC = vkit.Prop[Case]{ID: "C16", Rule: ruleHistory + " || " + ruleUC, Gen: genUCCase, Run: run}
+var propUC = vkit.Prop[Case]{ID: "C16", Rule: ruleHistory + " || " + ruleUC + " || " + ruleRT, Gen: genUCCase, Run: run}
 
 func TestRapid(t *testing.T)    { prop.Check(t) }
 func TestUserCode(t *testing.T) { propUC.Check(t) }
